@@ -23,6 +23,14 @@ CHECKS = {
              "with returned values), value and globals against HyCore, where ShortCircuit is a checked invariant; "
              "hy.pyops.and_/or_ are compared by value on plain operands.",
         note="Truthiness of the value pool (ints, bools, None, lists, strings) as transcribed in HyCore!Truthy."),
+    "C03": dict(
+        engine="ops", level="model_checking", design="5.1, 6/C03",
+        technique="TLC checks the operator table of HyOps (arities, fold direction and aggregator consistency on integers) "
+                  "and exports the Python expansion of every (operator, arity); the macro form, the hy.pyops function, the "
+                  "macro with #* and CPython on the expansion text are evaluated on the same operands and compared",
+        text="25 operators x arities 0..6 plus 13 augmented assignments; operands from ints, bools, floats, strings, lists, "
+             "sets, None (TypeError / ZeroDivisionError cases included), exhaustive for arity <= 2, sampled above.",
+        note="Values are compared by type and repr, exceptions by class."),
     "C04": dict(
         engine="compr", level="model_checking", design="5.1, 6/C04",
         technique="TLC enumerates comprehension forms of HyCompr with their nested-loop trace (effects and yields) and the "
